@@ -10,6 +10,11 @@ namespace Dirk
 theorem facts_tls_clientAuth : Gen.tlsClientAuth = some "tls.RequireAndVerifyClientCert" := by decide
 theorem facts_tls_minVersion : Gen.tlsMinVersion = some "tls.VersionTLS13" := by decide
 theorem facts_tls_clientCAs : Gen.tlsClientCAsSet = true := by decide
+/-- fields a server tls.Config may be given without weakening client authentication (anything else — session-ticket keys,
+    GetConfigForClient, VerifyPeerCertificate, InsecureSkipVerify, MaxVersion, … — needs review) -/
+def reviewedTlsFields : List String := ["Certificates", "ClientAuth", "ClientCAs", "MinVersion", "NextProtos", "CipherSuites", "CurvePreferences"]
+/-- the server's tls.Config is given reviewed fields only, and no method is called on it (e.g. SetSessionTicketKeys) -/
+theorem facts_tls_fields : Gen.tlsConfigFields.all (fun f => reviewedTlsFields.contains f) = true ∧ Gen.tlsConfigCalls = [] := by decide
 theorem facts_tls_creds : Gen.grpcCredsInstalled = true ∧ Gen.grpcNewServerCalls = 1 ∧ Gen.otherGrpcServers = [] := by decide
 theorem facts_services : Gen.registeredServices = ["WalletManager", "AccountManager", "Lister", "Signer", "DKG"] := by decide
 theorem facts_interceptor : "interceptors.ClientInfoInterceptor" ∈ Gen.interceptorChain := by decide
